@@ -223,3 +223,246 @@ def replay_C12(ctx, path):
     r = json.load(open(path))
     print(json.dumps(r, indent=1)[:3000])
     return check_C12(ctx)
+
+
+# ----------------------------------------------------------------------------------------
+# arena-based properties: C01 C02 C03 C05 C07 C10 C13 (C14, C15, C17, C18 when modelled)
+# ----------------------------------------------------------------------------------------
+ARENA = {
+    'C01': dict(
+        x=['block-outside-owned-memory', 'block-misaligned', 'live-blocks-overlap', 'block-smaller-than-requested', 'panic'],
+        mism=['result-block', 'result-kind', 'stats'],
+        note='PARTIAL: invariant preservation proved for every operation except grow/shrink'),
+    'C02': dict(
+        x=['block-contents-changed', 'grow-lost-contents', 'shrink-lost-contents', 'zeroed-allocation-not-zero',
+           'grow-zeroed-tail-not-zero', 'MODELUB', 'panic'],
+        mism=['block-contents', 'result-block'],
+        note='PARTIAL: frame proved for allocate/allocate_zeroed/fill and all non-writing operations; grow/shrink copies rest on correspondence + byte-pattern monitor'),
+    'C03': dict(
+        x=['scope-exit-did-not-restore-allocated', 'scope-exit-did-not-restore-position', 'scope-exit-released-a-chunk',
+           'block-contents-changed', 'panic'],
+        mism=['stats', 'base-allocator-events'],
+        note='PARTIAL: restoration theorems proved; replay_needs_no_chunk / reset_loop_converges not proved'),
+    'C05': dict(
+        x=['base-allocator-ledger', 'chunks-not-released-exactly-once-by-drop', 'reset-did-not-keep-exactly-the-largest-chunk',
+           'reset-to-start-called-the-base-allocator', 'chunk-outside-granted-block', 'scope-exit-released-a-chunk', 'panic'],
+        mism=['base-allocator-events', 'init-result'],
+        note='PARTIAL: exactly-once release and fitting layouts proved over the model; no-touch-after-release / outside-granted-blocks monitored only (poison, guard bytes)'),
+    'C07': dict(
+        x=['panic', 'block-contents-changed', 'base-allocator-ledger', 'stats-identity', 'live-blocks-overlap'],
+        mism=['result-kind', 'base-allocator-events', 'stats'],
+        note='PARTIAL: arena-level failure theorems proved; collection-level atomicity not modelled yet'),
+    'C10': dict(
+        x=['stats-identity', 'chunk-list-forward-backward-differ', 'chunk-not-larger-than-predecessor',
+           'chunk-size-not-multiple-of-16', 'position-outside-content-range', 'position-not-multiple-of-min-align',
+           'any-stats-differ-from-typed-stats', 'chunk-outside-granted-block', 'panic'],
+        mism=['stats'],
+        note='PARTIAL: identities, position and geometry proved from the invariant; strict growth of chunk sizes and forward/backward list equality are monitored on the implementation only'),
+    'C13': dict(
+        x=['deallocate-changed-allocated-although-deallocation-is-off', 'shrink-decreased-allocated-although-shrinking-is-off',
+           'block-contents-changed', 'panic'],
+        mism=['result-block', 'stats'],
+        note='PARTIAL: opt-out / non-last / same-address theorems proved; in-place grow clause not proved yet'),
+}
+
+
+def split_runs(path):
+    """trace file -> {run header line: [lines]}"""
+    runs = {}
+    cur = None
+    with open(path) as f:
+        for l in f:
+            l = l.rstrip('\n')
+            if l.startswith('RUN '):
+                cur = l
+                runs[cur] = [l]
+            elif cur is not None:
+                runs[cur].append(l)
+    return runs
+
+
+def script_prefix(lines, upto_line):
+    """the replayable part of a run up to (and including) the step that produced `upto_line`"""
+    out = []
+    for l in lines:
+        if l.startswith(('RUN', 'CFG', 'INIT', 'FAIL', 'O ')):
+            out.append(l)
+        if upto_line is not None and l == upto_line:
+            break
+    return out
+
+
+def run_arena(ctx, runs, ops, seeds, script=None, builds=(False, True)):
+    """returns dict(summary, implx=[(build, runhdr, cfg, xline)], mism=[(build, line)], ub=[...], crashes=[...], traces={build: path})"""
+    res = {'summary': {'runs': 0, 'steps': 0, 'mismatches': 0, 'impl_monitor_failures': 0, 'model_ub': 0,
+                       'nontrivial_steps': 0, 'configs': 0, 'ops': {}, 'paths': {}},
+           'implx': [], 'mism': [], 'ub': [], 'crashes': [], 'traces': {}, 'samples': []}
+    for release in builds:
+        exe = ctx.cargo_build('arena', release=release)
+        if exe is None:
+            return None
+        b = 'release' if release else 'debug'
+        for sd in seeds:
+            trace = os.path.join(CACHE, 'arena_%s_%s_%d.txt' % (ctx.pid, b, sd))
+            if script:
+                cmd = '%s --script %s > %s' % (exe, script, trace)
+            else:
+                cmd = '%s --seed %d --runs %d --ops %d > %s' % (exe, sd, runs, ops, trace)
+            rc, out, dt = sh(cmd, timeout=1800)
+            res['traces'][(b, sd)] = trace
+            if rc != 0:
+                # the implementation crashed (abort / segfault): the last run of the trace is the history
+                last = None
+                try:
+                    rr = split_runs(trace)
+                    last = list(rr.keys())[-1] if rr else None
+                except OSError:
+                    rr = {}
+                res['crashes'].append((b, rc, last, rr.get(last, [])[-40:] if last else [], out[-300:]))
+            rc2, out2, dt2 = sh('%s arena < %s' % (DRV, trace), timeout=3000)
+            if rc2 != 0 and rc == 0:
+                ctx.problems.append(('driver', 'drv arena failed: ' + out2[-500:]))
+                continue
+            for l in out2.split('\n'):
+                if l.startswith('IMPLX'):
+                    parts = l[len('IMPLX '):].split(' | ')
+                    if len(parts) >= 3:
+                        res['implx'].append((b, parts[0], parts[1], ' | '.join(parts[2:])))
+                elif l.startswith('MISMATCH'):
+                    res['mism'].append((b, l))
+                elif l.startswith('MODELUB'):
+                    res['ub'].append((b, l))
+                elif l.startswith('SUMMARY'):
+                    s = json.loads(l[len('SUMMARY '):])
+                    S = res['summary']
+                    for k, v in s.items():
+                        if isinstance(v, dict):
+                            for kk, vv in v.items():
+                                S[k][kk] = S[k].get(kk, 0) + vv
+                        elif k == 'configs':
+                            S[k] = max(S[k], v)
+                        else:
+                            S[k] = S.get(k, 0) + v
+            if not res['samples'] and os.path.exists(trace):
+                with open(trace) as f:
+                    res['samples'] = [next(f, '').strip()[:160] for _ in range(12)]
+    return res
+
+
+def arena_verdict(ctx, pid, res, conf):
+    """turn monitor failures / mismatches into violations (concrete history) or tie problems"""
+    runs_cache = {}
+    def run_lines(build_seed_hdr):
+        (b, hdr) = build_seed_hdr
+        for (bb, sd), path in res['traces'].items():
+            if bb != b:
+                continue
+            if path not in runs_cache:
+                try:
+                    runs_cache[path] = split_runs(path)
+                except OSError:
+                    runs_cache[path] = {}
+            if hdr in runs_cache[path]:
+                return runs_cache[path][hdr]
+        return []
+    kinds = conf['x']
+    for (b, hdr, cfgl, xline) in res['implx']:
+        k = xline.split()[1] if len(xline.split()) > 1 else ''
+        if k not in kinds:
+            continue
+        lines = run_lines((b, hdr))
+        ctx.violations.append({
+            'kind': 'arena-history', 'build': b, 'run': hdr, 'config': cfgl, 'what_fails': xline,
+            'script': script_prefix(lines, xline),
+            'signature': 'arena:%s' % k,
+            'how_to_replay': 'tools/vcheck %s --replay <this file>' % pid,
+        })
+    if 'MODELUB' in kinds:
+        for (b, l) in res['ub']:
+            hdr = l[len('MODELUB '):].split(' | ')[0]
+            ctx.violations.append({'kind': 'arena-history', 'build': b, 'run': hdr, 'what_fails': l,
+                                   'script': script_prefix(run_lines((b, hdr)), None), 'signature': 'arena:model-ub'})
+    for (b, rc, hdr, tail, err) in res['crashes']:
+        ctx.violations.append({'kind': 'arena-history', 'build': b, 'run': hdr,
+                               'what_fails': 'the implementation crashed (exit status %d) while executing this history; last trace lines attached' % rc,
+                               'script': script_prefix(run_lines((b, hdr)), None) if hdr else [], 'trace_tail': tail, 'stderr': err,
+                               'signature': 'arena:crash'})
+    rel = [(b, l) for (b, l) in res['mism'] if any(('kind=%s ' % k) in l for k in conf['mism'])]
+    if rel and not ctx.violations:
+        ctx.problems.append(('tie', 'model and implementation disagree on %d step(s) relevant to %s; first: %s' % (len(rel), pid, rel[0][1][:600])))
+    return rel
+
+
+def check_arena(ctx):
+    pid = ctx.pid
+    conf = ARENA[pid]
+    target = 'Properties/' + pid
+    ctx.regen()
+    ok, out = ctx.coq_build(target)
+    nthm, nclosed = (0, 0)
+    if ok:
+        nthm, nclosed = ctx.check_assumptions(target, out)
+    else:
+        nthm = len(ctx.pinned(target)[0])
+    ctx.grep_forbidden()
+    if ctx.tier == 'thorough' and ok:
+        ctx.coqchk(target)
+    if ctx.build_driver():
+        runs, ops = (240, 60) if ctx.tier == 'quick' else (4000, 100)
+        seeds = [ctx.seed] if ctx.tier == 'quick' else [ctx.seed, ctx.seed + 1000003]
+        res = run_arena(ctx, runs, ops, seeds)
+        if res is not None:
+            rel = arena_verdict(ctx, pid, res, conf)
+            if (rel or ctx.problems) and not ctx.violations:
+                ctx.say('proof or tie broken: searching for a concrete failing history')
+                ctx.problems = [p for p in ctx.problems if p[0] != 'tie']
+                res2 = run_arena(ctx, 3000, 120, [ctx.seed + 7, ctx.seed + 77])
+                if res2 is not None:
+                    rel2 = arena_verdict(ctx, pid, res2, conf)
+                    for k in ('runs', 'steps', 'nontrivial_steps'):
+                        res['summary'][k] += res2['summary'][k]
+                    if (rel or rel2) and not ctx.violations and not any(p[0] == 'tie' for p in ctx.problems):
+                        ctx.problems.append(('tie', 'model and implementation disagree; first: %s' % ((rel or rel2)[0][1][:600])))
+            S = res['summary']
+            ctx.cov.update({
+                'evaluations': S['steps'],
+                'distinct_nontrivial': S['nontrivial_steps'],
+                'rule': 'online-generated operation histories (allocate/zeroed/typed sized+slice, deallocate, grow(_zeroed), shrink, through WithoutDealloc/WithoutShrink nestings, checkpoint/reset_to, nested scopes incl. unwinding, reset, reset_to_start, reserve, injected base-allocator refusals, drop) over a 40-entry settings x base-allocator-shape matrix (both directions, MIN_ALIGN 1..16, guaranteed-allocated, deallocates, shrinks, min chunk size, zero-sized/8-byte/align-32/align-64 allocator values, 4 over-granting policies, adjacent chunk placement); every step replayed on the extracted Coq model with exact comparison of addresses, chunk positions, all statistics, base-allocator events and block contents; debug and release builds. evaluations = steps; distinct_nontrivial = steps that requested/released a chunk, moved a block or failed (counted by the driver)',
+                'samples': res['samples'],
+                'traces_validated_against_impl': S['steps'],
+                'input_distribution': {'runs': S['runs'], 'configs': S['configs'], 'ops': S['ops'], 'paths': S['paths']},
+                'mismatches': {'model_vs_impl_steps': S['mismatches'], 'impl_monitor_failures': S['impl_monitor_failures'], 'model_ub': S['model_ub']},
+                'partial_note': conf['note'],
+            })
+    return ctx.finish(level='proof', obligations=nthm, discharged=nclosed,
+                      checker_cmd='make -C coq Properties/%s.vo (coqc 8.16.1; Print Assumptions under each theorem)' % pid + ('; coqchk -o' if ctx.tier == 'thorough' else ''),
+                      extra_assumptions=['usize is 64 bit',
+                                         'base allocator: granted block aligned as requested, at least as large, non-null, not wrapping, at most isize::MAX bytes, disjoint from outstanding blocks (resp_ok)',
+                                         'hand-written model (coq/Arena.v) of raw_bump.rs / allocator_impl.rs / without_dealloc.rs tied to the code by the correspondence check; ' + conf['note']])
+
+
+def replay_arena(ctx, path):
+    r = json.load(open(path))
+    if r.get('kind') != 'arena-history' or not r.get('script'):
+        print(json.dumps(r, indent=1)[:3000])
+        return check_arena(ctx)
+    sp = os.path.join(CACHE, 'replay_script_%s.txt' % ctx.pid)
+    with open(sp, 'w') as f:
+        f.write('\n'.join(r['script']) + '\n')
+    if not ctx.build_driver():
+        return 1
+    res = run_arena(ctx, 0, 0, [0], script=sp)
+    arena_verdict(ctx, ctx.pid, res, ARENA[ctx.pid])
+    for v in ctx.violations[:3]:
+        print('reproduced:', v.get('what_fails'))
+    if ctx.violations or ctx.problems:
+        p = ctx.write_replay('violation', r)
+        print('VIOLATION property=%s replay=%s' % (ctx.pid, p))
+        return 1
+    print('the recorded history no longer fails on the current tree')
+    return 0
+
+
+for _p in ARENA:
+    globals()['check_' + _p] = check_arena
+    globals()['replay_' + _p] = replay_arena
